@@ -471,6 +471,93 @@ def fold_constant_tests(fn):
     return changed[0]
 
 
+def unroll_literal_loops(fn, max_rows=4):
+    """in place; number of loops written out. `for a, b in ((x, None), (y, self)):` — a loop with several loop variables over
+    a literal tuple / list of at most `max_rows` rows (or over a local bound once to one), every row element plain (names, constants, attribute
+    chains), no break / continue / else, loop variables not rebound in the body — reads as its body once per row, in order,
+    with the row in place of the variables."""
+    done = 0
+
+    def plain(e):
+        return isinstance(e, (ast.Name, ast.Constant)) or (isinstance(e, ast.Attribute) and plain(e.value))
+    sa = single_assignments(fn)
+
+    def rows_of(it):
+        lit = it
+        if isinstance(it, ast.Name) and isinstance(sa.get(it.id), (ast.Tuple, ast.List)):
+            # (the table must not be used for anything else than this loop)
+            uses = [x for x in ast.walk(fn) if isinstance(x, ast.Name) and x.id == it.id and isinstance(x.ctx, ast.Load)]
+            if len(uses) != 1:
+                return None
+            lit = sa[it.id]
+        if not isinstance(lit, (ast.Tuple, ast.List)) or not (1 <= len(lit.elts) <= max_rows):
+            return None
+        return lit.elts
+
+    def visit(stmts):
+        nonlocal done
+        out = []
+        for st in stmts:
+            for fld in ("body", "orelse", "finalbody"):
+                sub = getattr(st, fld, None)
+                if isinstance(sub, list) and sub and isinstance(sub[0], ast.stmt) and not isinstance(st, (ast.FunctionDef, ast.ClassDef)):
+                    setattr(st, fld, visit(sub))
+            for h in getattr(st, "handlers", []) or []:
+                h.body = visit(h.body)
+            if isinstance(st, ast.For) and not st.orelse and not any(
+                    isinstance(x, (ast.Break, ast.Continue, ast.Yield, ast.YieldFrom)) for x in ast.walk(st)):
+                rows = rows_of(st.iter)
+                tg = st.target
+                # (rows of several columns only: `for p in (left, right):` is a loop the rules read as a loop)
+                names = [e.id for e in tg.elts] if isinstance(tg, ast.Tuple) and len(tg.elts) >= 2 \
+                    and all(isinstance(e, ast.Name) for e in tg.elts) else None
+                if rows is not None and names is not None and not any(
+                        isinstance(x, ast.Name) and x.id in names and isinstance(x.ctx, ast.Store) for b in st.body for x in ast.walk(b)):
+                    maps = []
+                    for r in rows:
+                        if isinstance(tg, ast.Name):
+                            ok = plain(r)
+                            m = {tg.id: r}
+                        else:
+                            ok = isinstance(r, (ast.Tuple, ast.List)) and len(r.elts) == len(names) and all(plain(e) for e in r.elts)
+                            m = dict(zip(names, r.elts)) if ok else None
+                        if not ok:
+                            maps = None
+                            break
+                        maps.append(m)
+                    if maps:
+                        for m in maps:
+                            for b in st.body:
+                                nb = substitute_stmt(b, m)
+                                for x in ast.walk(nb):
+                                    if isinstance(x, (ast.expr, ast.stmt)):
+                                        ast.copy_location(x, st)
+                                out.append(nb)
+                        done += 1
+                        continue
+            out.append(st)
+        return out
+    fn.body = visit(fn.body)
+    if done:
+        # a table that only fed the loop is gone with it
+        for nm, v in sa.items():
+            if isinstance(v, (ast.Tuple, ast.List)) and not any(isinstance(x, ast.Name) and x.id == nm and isinstance(x.ctx, ast.Load)
+                                                               for x in ast.walk(fn)):
+                for n in ast.walk(fn):
+                    for fld in ("body", "orelse", "finalbody"):
+                        blk = getattr(n, fld, None)
+                        if isinstance(blk, list):
+                            keep = [y for y in blk if not (isinstance(y, ast.Assign) and len(y.targets) == 1
+                                                           and isinstance(y.targets[0], ast.Name) and y.targets[0].id == nm)]
+                            if len(keep) != len(blk):
+                                blk[:] = keep or [ast.Pass()]
+        fold_constant_tests(fn)
+        for n in ast.walk(fn):
+            for ch in ast.iter_child_nodes(n):
+                ch._parent = n
+    return done
+
+
 def inline_local_procedures(fn):
     """in place; number of calls written out. A nested `def g(a, b): <statements>` of fn that returns nothing, binds no
     local of its own, is not recursive and is only ever called as a statement `g(x, y)` of fn's own blocks: each call reads
